@@ -100,6 +100,12 @@ def make_case(rng):
     D = len(names)
     spec = zoo.int_spec(rng, n=N, d=D, names=names, limits=False)
     spec['extra'] = []
+    if rng.random() < 0.06:
+        # declared ranges beyond 2^24 (the full range of 32-bit parameters and more): exact in double precision only
+        for j in range(len(spec['ranges'])):
+            spec['ranges'][j] = int(rng.choice([1 << 25, (1 << 25) + 1, 20000001, 1 << 32, (1 << 32) - 1, 1 << 31]))
+        spec['widths'] = [32] * len(spec['ranges'])
+        spec['events'] = [[int(v) % 65536 for v in row] for row in spec['events']]
     if tkind != 'absent' and N:
         for i, row in enumerate(spec['events']):
             row[-1] = min(i * 7 + 3, spec['ranges'][-1] - 1)
